@@ -852,7 +852,13 @@ class HexaryTrie:
             )
             yield memory_trie
 
-        if self.root_hash != memory_trie.root_hash:
+        if self.root_hash != memory_trie.root_hash and self.is_pruning:
+            # The batch has already stored the new root node and counted the
+            # reference to it in the reference counts it shares with this trie.
+            # Saving the node again would count that one reference twice, and
+            # the node could then never be pruned.
+            self.root_hash = memory_trie.root_hash
+        elif self.root_hash != memory_trie.root_hash:
             try:
                 raw_root_node = memory_trie.get_node(memory_trie.root_hash)
             except KeyError:
